@@ -6,7 +6,7 @@ import ast
 import z3
 
 from . import smt
-from .contract import (Arr, Arr2, Bool, Const, Contract, Int, Obj, Opaque, Opt, Raw, Real, RecArr, Str)
+from .contract import (Arr, Arr2, Bool, Chunks, Const, Contract, Int, Obj, Opaque, Opt, Raw, Real, RecArr, Str)
 from .source import ContractMismatch, OutOfSubset, _strip_doc
 from .state import NORMAL, Outcome, State
 from .values import *  # noqa: F403
@@ -147,6 +147,10 @@ class CallMixin:
             st.assume(z3.Implies(z3.And(req) if req else z3.BoolVal(True), z3.And(ens)))
             self.assume_tag("LEMMA:" + name)
             return VBool(True)
+        if name == "raw":  # raw(view, k): element k of the *underlying object* (absolute index; matches any select on it)
+            v = self.ev(node.args[0], st)
+            k = smt.som(self.to_int(self.ev(node.args[1], st)))
+            return self.elem_wrap(z3.Select(st.heap[v.obj], k), st.hmeta[v.obj]["kind"])
         if name == "off":
             v = self.ev(node.args[0], st)
             return VInt(v.off)
@@ -281,7 +285,7 @@ class CallMixin:
             return self.call_repo(fn.ref, fn.self_, args, kwargs, st, line)
         if k == "class":
             return self.call_class(fn.ref, args, kwargs, st, line)
-        if k in ("arrmethod", "dictmethod", "listmethod", "strmethod", "opaque", "seqmethod"):
+        if k in ("arrmethod", "dictmethod", "listmethod", "strmethod", "opaque", "seqmethod", "scalarmethod"):
             m = self.models.get(f"{k}.{fn.ref}")
             if m is None:
                 raise OutOfSubset(f"line {line}: {k} .{fn.ref}()")
@@ -419,6 +423,11 @@ class CallMixin:
             return val(VOpaque("str"))
         if name == "print":
             return val(NONE)
+        if name == "super":
+            self_v = st.env.get("self")
+            if not isinstance(self_v, VObj) or self.fi is None or self.fi.cls is None:
+                raise OutOfSubset(f"line {line}: super() outside a method")
+            return val(VSuper(self_v, self.fi.file, self.fi.cls))
         if name == "bytearray" or name == "memoryview":
             m = self.models.get("builtins." + name)
             if m is None:
@@ -506,7 +515,7 @@ class CallMixin:
 
     def call_repo(self, key, self_v, args, kwargs, st, line):
         fi = self.src.func(key)
-        if ("repo:" + key) in self.models:
+        if ("repo:" + key) in self.models and not (self.contract is not None and key in self.contract.inline_calls):
             self.assume_tag("MODEL:" + key.split("::")[1])
             return self.models["repo:" + key](self, st, [self_v] + list(args), kwargs, line)
         c = self.reg.get(key)
@@ -517,6 +526,8 @@ class CallMixin:
             if c is None:
                 raise OutOfSubset(f"line {line}: generator {key} without a yield contract")
             return self.call_generator(fi, c, env, st, line)
+        if c is not None and self.contract is not None and key in self.contract.inline_calls:
+            return self.call_inline(fi, env, st, line)
         if c is not None and not c.inline:
             return self.call_contract(fi, c, env, st, line)
         if c is None and not (fi.is_property or key in getattr(self, "inline_ok", set())):
@@ -583,9 +594,13 @@ class CallMixin:
         try:
             for name, expr in c.lets.items():
                 cenv[name] = self.spec_val(expr, st)
+            xr = [st.ghost["xs_range"]] if st.ghost.get("xs_range") is not None else []
             for i, r in enumerate(c.requires):
                 g = self.spec_bool(r, st)
+                st.pc.extend(xr)
                 self.oblig(st, f"pre@{short}#{n}", g, line, label=f"r{i}")
+                if xr:
+                    del st.pc[-len(xr):]
                 st.assume(g)
             if c.key == self.cur_func and self.inline_depth == 0:
                 if c.decreases is None:
@@ -627,6 +642,11 @@ class CallMixin:
             for m in c.modifies:
                 self.havoc_path(m, cur, cenv, f"c{n}")
             res = self.fresh_of_type(c.ret, cur, "ret_" + short)
+            if c.ret_like and isinstance(res, VArr) and isinstance(cenv.get(c.ret_like), VArr):
+                src_meta = cur.hmeta[cenv[c.ret_like].obj]
+                cur.hmeta[res.obj] = dict(src_meta)
+                if cur.heap[res.obj].sort() != cur.heap[cenv[c.ret_like].obj].sort():
+                    cur.heap[res.obj] = smt.fresh(res.obj + "@like", cur.heap[cenv[c.ret_like].obj].sort())
             self.result = res
             for (label, expr, cls) in c.ensures:
                 cur.assume(self.spec_bool(expr, cur))
@@ -706,6 +726,14 @@ class CallMixin:
                 off = smt.fresh(name + "_off")
                 st.assume(off >= 0)
             return VArr(obj, off, z3.IntVal(1), n)
+        if isinstance(t, Chunks):
+            from .iomodel import chunklist_new
+            cl = chunklist_new(self, st, t.kind, None)
+            f = st.objs[cl.oid]
+            f["n"] = VInt(smt.fresh(name + "_n"))
+            f["fresh"] = False
+            st.assume(f["n"].t >= 0)
+            return cl
         if isinstance(t, Raw):
             return VOpaqueArr(z3.Const(name + "@raw", z3.ArraySort(INT, ELEM_SORT[t.kind])))
         if isinstance(t, Arr2):
@@ -789,6 +817,20 @@ class CallMixin:
             st.env, self.mod = saved_env, saved_mod
         return [(st, Outcome("value", VFunc("genobj", (c, spec, env.get("self")))))]
 
+    def _mark_obj_modified(self, o, st, objs, fields, depth, only=None):
+        if depth > 4 or o.oid not in st.objs:
+            return
+        for f, v in st.objs[o.oid].items():
+            if only is not None and f not in only:
+                continue
+            fields.add((o.oid, f))
+            if isinstance(v, VObj):
+                self._mark_obj_modified(v, st, objs, fields, depth + 1)
+            elif isinstance(v, (VArr, VArr2)):
+                objs.add(v.obj)
+            elif isinstance(v, str) and v in st.heap:
+                objs.add(v)
+
     def call_modifies(self, n: ast.Call, st, objs, fields):
         """Heap objects a call inside a loop body may modify (from the callee's contract/model)."""
         try:
@@ -796,6 +838,12 @@ class CallMixin:
         except OutOfSubset:
             return
         if not isinstance(fn, VFunc):
+            return
+        if fn.kind in ("repo", "method") and ("repo:" + fn.ref) in self.models:
+            # call-site model of a repo method: its receiver's (ghost) state is modified
+            if isinstance(fn.self_, VObj):
+                only = REPO_MODEL_MODIFIES.get(fn.ref)
+                self._mark_obj_modified(fn.self_, st, objs, fields, 0, only)
             return
         if fn.kind in ("repo", "method"):
             try:
@@ -873,6 +921,21 @@ class CallMixin:
 
 # argument positions (after the receiver) written by a library model
 MODEL_WRITES = {"FileIO.readinto": (0,)}
+# receiver fields (ghost state) changed by the call-site models of repo methods (pvc/wrmodel.py)
+REPO_MODEL_MODIFIES = {
+    "sigpyproc/io/fileio.py::FileWriter.cwrite": ("usamples", "nwrites", "file_obj"),
+    "sigpyproc/io/fileio.py::FileBase.close": ("closed",),
+    "sigpyproc/header.py::Header.new_header": (),
+    "sigpyproc/header.py::Header.mjd_after_nsamps": (),
+    "sigpyproc/header.py::Header.prep_outfile": (),
+}
+
+
+class VSuper(V):
+    __slots__ = ("obj", "file", "cls")
+
+    def __init__(self, obj, file, cls):
+        self.obj, self.file, self.cls = obj, file, cls
 
 
 class VOpaqueArr(V):
